@@ -123,6 +123,9 @@ def run(ctx):
     ctx.rule("R02.z", "no rejection after the one validator that may extend the Parameter: in Parameter.__set__ no raise is reachable (normal edges of the CFG) after self._validate(val) as "
                       "long as Selector._ensure_value_is_in_objects appends the offered value (check_on_set=False)", floor=1)
     no_rejection_after_a_validator_with_effects(ctx, "R02.z")
+    ctx.rule("R02.j", "a refused class-level assignment leaves the watchers registered on the subclass's Parameter: the per-class copy the metaclass installs is not built with the per-instance "
+                      "helper (which empties the watcher table)", floor=1)
+    per_class_copy_keeps_the_watchers(ctx, "R02.j")
     ctx.not_decided += ["that callees are effect-free before their own raises (Composite._post_setter assigns constituents one by one)",
                         "equality of the complete observable state before/after (needs execution)"]
     ctx.assumptions.append("frozen exclusion: the scheduling done inside _resolve_ref for coroutine references (there is no current value to reject)")
@@ -446,3 +449,26 @@ def no_rejection_after_a_validator_with_effects(ctx, rule):
                  key=f.qualname + "::rejection-after-extending-validator", input="s = Selector(objects=[1, 2], check_on_set=False, constant=True); p.s = 99 -> TypeError, p.param.s.objects == [1, 2, 99]")
     else:
         ctx.ok(rule, f, vals[0], "no raise statement of Parameter.__set__ is reachable after self._validate(val): a value the unchecked-Selector validator appended is never refused afterwards")
+
+
+def per_class_copy_keeps_the_watchers(ctx, rule):
+    """The per-class copy the metaclass installs for an inherited Parameter (before the copy's __set__ can still REFUSE the
+    value -- the known finding R02.x) is a plain `copy.copy(parameter)`: it carries every slot, the class-level watcher
+    table included.  Built with the per-INSTANCE helper `_instantiate_param_obj` (which starts the copy with an empty
+    watcher table) a refused `Sub.x = bad` would also drop the watchers registered on Sub.x."""
+    ms = ctx.repo.func("param.parameterized.ParameterizedMetaclass.__setattr__")
+    installs = [c for c in ast.walk(ms.node) if isinstance(c, ast.Call) and norm(c.func) == "type.__setattr__" and len(c.args) == 3 and isinstance(c.args[2], ast.Name)]
+    made = []
+    for c in installs:
+        v = c.args[2].id
+        made += [st.value for st in ast.walk(ms.node) if isinstance(st, ast.Assign) and any(isinstance(t, ast.Name) and t.id == v for t in st.targets)
+                 and isinstance(st.value, ast.Call)]
+    ctx.require(installs, "ParameterizedMetaclass.__setattr__ no longer installs attributes through type.__setattr__")
+    helpers = [m for m in made if norm(m.func).rsplit(".", 1)[-1] in ("_instantiate_param_obj", "_instantiated_parameter")]
+    if helpers:
+        ctx.fail(rule, ms, helpers[0], "the per-class copy of an inherited Parameter is built with `%s`, the helper for per-INSTANCE copies, which starts the copy with an empty watcher table: the copy "
+                                       "is installed before its __set__ validates, so a REFUSED class-level assignment on the subclass removes the watchers registered there (those of Parameter "
+                                       "attributes are not even carried over on success)" % norm(helpers[0])[:60], key=ms.qualname + "::per-class-copy-loses-watchers",
+                 input="Sub.param.watch(cb, 'x', what='bounds'); Sub.x = <invalid> (refused) -> cb no longer fires for Sub.param.x.bounds = ...")
+    else:
+        ctx.ok(rule, ms, installs[0], "the per-class copy is not built with the per-instance helper (it keeps the inherited Parameter's watcher table)")
